@@ -197,6 +197,13 @@ def flat_prog(
             mark = False  # a true root of the graph: no constant marker argument either
         body.append({"k": "call", "fn": fn, "site": site(i), "mark": mark, "args": args, "kwargs": kwargs,
                      "active": active, "unpack": None, "tags": [], "out": f"v{i}"})
+    plain_fns = [g for g, sp in fns.items() if "qual" not in sp or sp["qual"] == f"mk.<locals>.{g}"]
+    if len(plain_fns) >= 2 and chance(draw, 0.1):
+        # kind of callable: two closures / methods that share their __name__ ("step") while their __qualname__ - which
+        # is what tawazi names the node after - differs
+        for g in plain_fns[:2]:
+            fns[g]["pyname"] = "step"
+            fns[g]["qual"] = f"mk_{g}.<locals>.step"
     ret_items: List[Any] = []
     for i in range(n):
         e: Any = ["v", f"v{i}"]
